@@ -142,7 +142,7 @@ func (o *vectorOperator) initOutputs(ctx context.Context) error {
 	keepName := !shouldDropMetricName(o.opType, o.returnBool)
 	highCardHashes, highCardInputMap := o.hashSeries(highCardSide, keepLabels, keepName, buf)
 	lowCardHashes, lowCardInputMap := o.hashSeries(lowCardSide, keepLabels, keepName, buf)
-	output, highCardOutputIndex, lowCardOutputIndex := o.join(highCardHashes, highCardInputMap, lowCardHashes, lowCardInputMap, includeLabels)
+	output, highCardOutputIndex, lowCardOutputIndex := o.join(highCardHashes, highCardInputMap, lowCardHashes, lowCardInputMap, lowCardSide, includeLabels)
 
 	series := make([]labels.Labels, len(output))
 	for _, s := range output {
@@ -269,6 +269,7 @@ func (o *vectorOperator) join(
 	highCardInputIndex map[uint64][]uint64,
 	lowCardHashes map[uint64][]model.Series,
 	lowCardInputIndex map[uint64][]uint64,
+	lowCardSide []labels.Labels,
 	includeLabels []string,
 ) ([]model.Series, []*uint64, [][]uint64) {
 	// Output index points from output series ID
@@ -298,9 +299,11 @@ func (o *vectorOperator) join(
 			lowCardOutputIndex[lowCardSeriesID] = make([]uint64, 0, len(highCardSeries))
 		}
 
-		lowCardSeries := lowCardHashes[hash][0]
+		// Included labels are read from the "one" side's series as it came in:
+		// the hashed copy has lost the metric name for operators that drop it.
+		lowCardMetric := lowCardSide[lowCardHashes[hash][0].ID]
 		for i, output := range highCardSeries {
-			outputSeries := buildOutputSeries(uint64(len(outputIndex)), output, lowCardSeries, includeLabels)
+			outputSeries := buildOutputSeries(uint64(len(outputIndex)), output, lowCardMetric, includeLabels, o.returnBool)
 			outputIndex = append(outputIndex, outputSeries)
 
 			highCardSeriesID := highCardInputIndex[hash][i]
@@ -344,7 +347,7 @@ func signature(metric labels.Labels, without bool, grouping []string, keepOrigin
 	return key, lb.Labels(nil)
 }
 
-func buildOutputSeries(seriesID uint64, highCardSeries, lowCardSeries model.Series, includeLabels []string) model.Series {
+func buildOutputSeries(seriesID uint64, highCardSeries model.Series, lowCardMetric labels.Labels, includeLabels []string, returnBool bool) model.Series {
 	metric := highCardSeries.Metric
 	if len(includeLabels) > 0 {
 		// Included labels take the value of the "one" side and are removed if
@@ -352,11 +355,15 @@ func buildOutputSeries(seriesID uint64, highCardSeries, lowCardSeries model.Seri
 		// returns a sorted label set without duplicates.
 		lb := labels.NewBuilder(metric)
 		for _, name := range includeLabels {
-			if v := lowCardSeries.Metric.Get(name); v != "" {
+			if v := lowCardMetric.Get(name); v != "" {
 				lb.Set(name, v)
 			} else {
 				lb.Del(name)
 			}
+		}
+		if returnBool {
+			// group_left(__name__) must not bring the metric name back.
+			lb.Del(labels.MetricName)
 		}
 		metric = lb.Labels(nil)
 	}
